@@ -44,6 +44,15 @@ CLAIMED["C19"] = ("4/C19", "FakeClock: every sequence of 2 (quick) / 3 (thorough
                   "auto-advance are distinct; SystemClock over an arbitrary time_ns; ZonedClock getters over a stub clock, fixed zones and DayCalendar.",
                   "real thread interleavings are outside the claim (no thread model in this technique family): mutual exclusion is argued from the "
                   "lock discipline observed on every sequential path")
+CLAIMED["C20"] = ("4/C20", "The data layer's two entry points (_TzdbStreamData._from_stream for the container, create_zone for a zone's payload; "
+                  "TzdbDateTimeZoneSource.from_stream / for_id call exactly these) over SYMBOLIC damaged bytes: two consecutive bytes of a real "
+                  "zone field replaced by every pair of values (body of small zones; tail flag and yearly rules of zones with a recurring tail), "
+                  "a real zone field truncated at every length, every zone payload / field payload of <= 3 (thorough 4) bytes behind each "
+                  "field id with and without a string pool, every field id / length varint / amount of data present, every header truncation: "
+                  "the call returns or raises InvalidPyodaDataError; a reader that keeps reading an exhausted stream is reported as a hang.",
+                  "k = 2 substituted bytes (the property's fault space goes to k = 4) and not every position: damage in the middle of a long "
+                  "transition chain is outside the bounds; insertions/deletions only as truncation; memory exhaustion is not modelled; the "
+                  "second database file under tests/ is not loaded")
 CLAIMED["C11"] = ("4/C11", "Real OffsetDateTime/OffsetDate/OffsetTime/Instant code over the DayCalendar abstraction (dates are day numbers; "
                   "contract C01 + C09): construction local = instant + offset, to_instant inverse, with_offset (both double day carries), "
                   "with_calendar, +/- Duration in all six spellings (instant moves exactly; offset and calendar retained), plus_<unit>, "
